@@ -710,6 +710,13 @@ impl<Front: SocketHandler> ConnectionH1<Front> {
                         stream.front.clear();
                         // do not stream.front.storage.clear() because of H1 pipelining
                         stream.attempts = 0;
+                        // the slot serves the next request of this connection: the
+                        // end-of-stream marks of the finished exchange must not make
+                        // an h2c backend's answer to it look like a frame on a closed stream
+                        stream.front_received_end_of_stream = false;
+                        stream.back_received_end_of_stream = false;
+                        stream.front_data_received = 0;
+                        stream.back_data_received = 0;
                         // Transition back to Idle so buffered pipelined requests
                         // trigger a phase transition on the next readable() call.
                         stream.state = StreamState::Idle;
